@@ -16,6 +16,7 @@ mod path;
 mod pos;
 mod prog;
 mod regalloc;
+mod susp;
 
 fn main() {
     let args: Vec<String> = std::env::args().collect();
@@ -38,6 +39,7 @@ fn main() {
         "pos" => pos::line,
         "prog" => prog::line,
         "regalloc" => regalloc::line,
+        "susp" => susp::line,
         "json" => json::line,
         "num" => num::line,
         _ => {
